@@ -24,13 +24,14 @@ META = dict(
                  'cycle is observed through islice on non-empty datasets',
                  'a composition the reference marks unsupported must be refused loudly (at construction or first use)'],
     bounds=dict(quick='source length n in 0..3, list- and dict-backed; every op of the alphabet at depth 1; depth 2: one representative per ordered pair of op classes '
-                      '(list-backed n=2, dict-backed n=3); shuffle over <= 3 and sort over <= 4 elements',
+                      '(list-backed n=2, dict-backed n=3); depth 3 complete over an 8-op core alphabet (n=3); shuffle over <= 3 and sort over <= 4 elements',
                 thorough='n in 0..3 depth 1 and depth 2 complete over the full alphabet; n = 4 depth 1; depth 3 over a seeded sample of shapes'),
     outside=['depth > 3', 'n > 4', 'symbolic strings / float / numpy-array examples', 'real worker pools (C04)'],
 )
 
 PARAMS = U.POOL_PARAMS
 SELECTING = ('sl', 'idx', 'nparr')
+CORE3 = [('map',), ('filt',), ('sl', 'm1'), ('batch', 2, False), ('cache',), ('catch',), ('cat_self',), ('pfw', 2, 2)]
 
 
 def body_iter(backing, n, ops, *args):
@@ -102,6 +103,9 @@ def conditions(tier, seed):
                     if U.budget((a, b)) >= 4:
                         continue    # two 2-entry selections: thorough tier only (does not exhaust in the quick budget)
                 add(backing, n2, (a, b))
+        # depth 3 over a core alphabet of stages that reach their input point-wise or by iteration in different ways
+        for ops in itertools.product(CORE3, repeat=3):
+            add('dict', 3, tuple(ops))
     else:
         for backing in ('list', 'dict'):
             for op in U.ALPHABET:
